@@ -51,6 +51,31 @@ pub fn run_prop(ctx: &Ctx, sink: &mut Sink) {
     let mut rng = Rng::new(ctx.seed).fork(15);
     let errf = ctx.tmp.join("stderr15");
     // ------------------------------------------------------------ ages
+    // ------------------------------------------------------------ ages beyond 2^63 seconds (a clock far in the
+    // future and files from before 1970): the number of whole periods is still that of (now - timestamp)
+    {
+        let dir = ctx.scratch("agebig");
+        let now: i128 = ((1i128 << 63) - 10) * NS;
+        let stamps: [i128; 5] = [-100 * NS, -11 * NS, -10 * NS, 0, 5 * NS];
+        for (i, t) in stamps.iter().enumerate() {
+            let p = dir.join(format!("f{i:03}"));
+            std::fs::write(&p, b"").unwrap();
+            set_times(&p, *t, *t);
+        }
+        let ts: Vec<i128> = (0..stamps.len()).map(|i| times_of(&dir.join(format!("f{i:03}"))).2).collect();
+        for (unit, prim, n) in [("d", "-mtime", 0u64), ("d", "-mtime", 106751991167300), ("m", "-mmin", 1), ("m", "-mmin", 153722867280912930), ("d", "-atime", 7)] {
+            let mut answers = vec![];
+            for form in ["", "+", "-"] {
+                let args: Vec<String> = vec![dir.to_str().unwrap().into(), "-name".into(), "f*".into(), prim.into(), format!("{form}{n}"), "-print0".into()];
+                let o = find_inproc(&errf, &args, sys_time(now), None);
+                answers.push(if o.code == Some(0) { bits(&selected(&o.out, stamps.len())) } else { format!("status-{}", o.status()) });
+            }
+            let tss: Vec<String> = ts.iter().map(|t| t.to_string()).collect();
+            let kind = if prim == "-atime" { "a" } else { "m" };
+            sink.push(Case { req: format!("age-e2e {kind} {unit} {n} {now} {}", tss.join(",")), imp: answers.join(" "), tags: vec!["age", "beyond-2^63-seconds", "nt"] });
+        }
+        let _ = std::fs::remove_dir_all(&dir);
+    }
     let ks: Vec<i128> = if ctx.thorough { vec![0, 1, 2, 3, 5, 7, 30, 59, 60, 61, 365, 400] } else { vec![0, 1, 2, 3, 30, 400] };
     let eps: [i128; 7] = [-NS, -1, 0, 1, NS - 1, NS, 37 * NS + 5];
     for (unit, period) in [("d", 86400 * NS), ("m", 60 * NS)] {
